@@ -564,3 +564,48 @@ func g19AtomicPrint(r *Repo, rep *Report) {
 			Msg: "(*pkg).Print truncates derived.gen.go and writes it in steps, without writing to another name and renaming: an interrupted run leaves a prefix of the output under the real name, and a prefix that ends before the package clause is complete makes every later run fail"})
 	}
 }
+
+// g16RewriteTarget — the rename stores a new identifier into call.Expr.Fun, replacing the whole callee expression. That is
+// "just the identifier substituted" only if the recorded callee *is* a bare identifier: (*finder).Visit must assert
+// call.Fun itself (not ast.Unparen(call.Fun) or any other view of it) to be an *ast.Ident before recording the call.
+// Otherwise `(deriveEqual)(a, b)` is rewritten to `deriveEqual_(a, b)`: the parentheses are lost.
+func g16RewriteTarget(r *Repo, rep *Report) {
+	visit := r.lookup("derive.(*finder).Visit")
+	if visit == nil {
+		rep.fail(Finding{Rule: "G16", Key: "G16|rewrite-target|missing", Kind: "undecided", Msg: "(*finder).Visit not found"})
+		return
+	}
+	info := visit.Pkg.TypesInfo
+	var callObj types.Object
+	var asserted []string
+	ast.Inspect(visit.Decl.Body, func(n ast.Node) bool {
+		as, ok := n.(*ast.AssignStmt)
+		if !ok || len(as.Rhs) != 1 {
+			return true
+		}
+		ta, ok := as.Rhs[0].(*ast.TypeAssertExpr)
+		if !ok || ta.Type == nil {
+			return true
+		}
+		switch exprStr(ta.Type) {
+		case "*ast.CallExpr":
+			if id, ok := as.Lhs[0].(*ast.Ident); ok {
+				callObj = info.Defs[id]
+			}
+		case "*ast.Ident":
+			asserted = append(asserted, exprStr(ta.X))
+		}
+		return true
+	})
+	if callObj == nil {
+		rep.fail(Finding{Rule: "G16", Key: "G16|rewrite-target|shape", Kind: "undecided", Where: []string{r.pos(visit.Decl.Pos())}, Msg: "(*finder).Visit: the call variable cannot be identified"})
+		return
+	}
+	want := callObj.Name() + ".Fun"
+	if len(asserted) == 1 && asserted[0] == want {
+		rep.pass("G16")
+		return
+	}
+	rep.fail(Finding{Rule: "G16", Key: "G16|rewrite-target|not-bare-identifier", Where: []string{r.pos(visit.Decl.Pos())},
+		Msg: fmt.Sprintf("(*finder).Visit records calls whose callee is an identifier only after %v: the rename then replaces the whole callee expression (call.Expr.Fun), so for `(deriveEqual)(a, b)` the parentheses disappear — the rewritten file is not the original with just the identifier substituted", asserted)})
+}
